@@ -10,6 +10,7 @@ import (
 	"math/rand"
 	"net/url"
 	"sort"
+	"strconv"
 	"strings"
 )
 
@@ -906,6 +907,14 @@ func c17aGen(r *rand.Rand, n int, tier string) []string {
 			continue
 		}
 		out = append(out, c17aGenLine(r, pick[r.Intn(len(pick))]))
+	}
+	// tickets: the j-th line that goes to a server (see c17aAcquire)
+	j := 0
+	for i, l := range out {
+		if strings.HasPrefix(l, "rq ") || strings.HasPrefix(l, "ws ") || strings.HasPrefix(l, "sq ") {
+			out[i] = l + "@" + strconv.Itoa(j)
+			j++
+		}
 	}
 	return out
 }
